@@ -13,3 +13,14 @@ EXTRA = [
     "x = f'\"\"\"{a}' if f\"'{b}''\" else f'{c}\"'\n",
     "def f():\n    return f'{a}\"\"\"'\n    'b'\ny = 1\n",
 ]
+
+# characters that str.splitlines() treats as line boundaries but the interpreter does not (form feed, \x1c-\x1e,
+# \x85, U+2028, U+2029) in front of if/elif chains and of statements with string literals: every line-number based
+# offset computation of the walker (_is_elif, _find_next_statement_start) must still count lines as CPython does
+EXTRA += [
+    "import os\n\x0c\nif a:\n    pass\nelif b:\n    x = 'a'\n    'b'\ny = 1\n",
+    "# sep \x85 \u2028 x \u2029\nif a:\n    pass\nelif b:\n    pass\nelse:\n    pass\n",
+    "s = 'a\x1cb\x1d\x1e'\nif a:\n    x = 'c'\n    'd'\nelif b:\n    pass\nz = 0\n",
+    "\x0c\ndef f():\n    '''doc\x0c\x85'''\n    x = 'a'\n    'b'\n\x0c\nclass A:\n    if a:\n        pass\n    elif b:\n        pass\n",
+    "x = 1  # \x0b\x0c\x1c\nwhile a:\n    if b:\n        y = 'p' 'q'\n        'r'\n    elif c:\n        pass\nw = 2\n",
+]
